@@ -105,6 +105,38 @@ pub fn run(ctx: &mut Ctx) {
         ctx.case(3, label, &[&z, &n], &o);
     }
 
+    // ---- the client's own freshly generated key relative to WHATEVER modulus and generator the server announced
+    //      (prime or not, dividing the generator or not): A = g^a mod N' computed independently; it is handed back as
+    //      the 32 little-endian bytes of A exactly when A is not congruent to 0 modulo N', and refused otherwise
+    {
+        use crate::srp::{bi, le32b};
+        use num_bigint::BigInt;
+        let mut r4 = ctx.rng("client_own_key");
+        let mut mods: Vec<[u8; 32]> = Vec::new();
+        for small in [1u32, 2, 3, 4, 6, 7, 9, 36, 49, 64, 251, 256, 65537, 65536] { let mut x = [0u8; 32]; x[..4].copy_from_slice(&small.to_le_bytes()); mods.push(x); }
+        { let mut x = [0u8; 32]; x[31] = 0x80; mods.push(x); }                       // 2^255
+        mods.push(NLE);
+        for _ in 0..6 { let mut x: [u8; 32] = r4.arr(); if r4.chance(1, 2) { x[0] &= 0xFE; } mods.push(x); }   // random 256-bit, some even
+        let gens = [0u8, 1, 2, 3, 6, 7, 255];
+        let reps = if ctx.quick() { 3 } else { 40 };
+        for n in &mods {
+            for g in gens {
+                for _ in 0..reps {
+                    let a: [u8; 32] = if r4.chance(1, 4) { let mut x = [0u8; 32]; x[0] = r4.byte(); x } else { r4.arr() };
+                    ctx.oracle_runs += 1;
+                    let nz = bi(n);
+                    let want: Result<[u8; 32], u8> = { let az = BigInt::from(g).modpow(&bi(&a), &nz); if az == BigInt::from(0) { Err(0) } else { Ok(le32b(&az)) } };
+                    let got = catch(|| hk::calculate_client_public_key(a, g, *n));
+                    let same = match (&got, &want) { (Some(Ok(x)), Ok(y)) => x == y, (Some(Err(_)), Err(_)) => true, _ => false };
+                    if !same {
+                        ctx.fail("client_own_key", format!("{{\"what\":\"the client's own key under an announced group is not (g^a mod N' handed back iff it is not 0 mod N')\",\"a\":\"{}\",\"g\":{},\"modulus\":\"{}\",\"got\":{},\"want\":{}}}",
+                            hex(&a), g, hex(n), jstr(&format!("{:?}", got.map(|r| r.map(|k| hex(&k))))), jstr(&format!("{:?}", want.map(|k| hex(&k))))));
+                    }
+                }
+            }
+        }
+    }
+
     // ---- implementation-only oracle: the two-value predicate (16 threads) ----
     let n = if ctx.quick() { 1_000_000u64 } else { 1_600_000_000 };
     let seed = ctx.seed;
